@@ -368,7 +368,12 @@ def run(p: Program, rep: Report, tier: str) -> None:
                               "with the producer one item ahead the sentinel put blocks forever, the relay task/thread never finishes and the user's generator is never closed")
         # stop flag
         nonlocals = {nm for n in ast.walk(push.node) if isinstance(n, ast.Nonlocal) for nm in n.names}
-        tested = {x.id for n in ast.walk(push.node) if isinstance(n, ast.While) for x in ast.walk(n.test) if isinstance(x, ast.Name)} & nonlocals
+        # the flag is a variable of the consumer that the relay reads: declared `nonlocal` in the relay (it also sets it at the end of
+        # the producer), or a plain free variable of the relay (only read there) that the consumer assigns
+        push_stores = {x.id for x in ast.walk(push.node) if isinstance(x, ast.Name) and isinstance(x.ctx, ast.Store)}
+        rs_stores = {t_.id for n in walk_shallow(rs.node) if isinstance(n, (ast.Assign, ast.AnnAssign)) for t_ in (n.targets if isinstance(n, ast.Assign) else [n.target]) if isinstance(t_, ast.Name)}
+        free_flags = rs_stores - push_stores
+        tested = {x.id for n in ast.walk(push.node) if isinstance(n, ast.While) for x in ast.walk(n.test) if isinstance(x, ast.Name)} & (nonlocals | free_flags)
         flags = [n for n in ast.walk(ast.Module(body=[s for t in fins for s in t.finalbody], type_ignores=[])) if isinstance(n, ast.Assign) and len(n.targets) == 1 and isinstance(n.targets[0], ast.Name)
                  and n.targets[0].id in tested and isinstance(n.value, ast.Constant) and n.value.value is True]
         # the same flag kept in an Event object: `stop = threading.Event()` / `asyncio.Event()`; tested `while not stop.is_set()`, raised `stop.set()`
